@@ -30,7 +30,7 @@ Proof. destruct c_minima_is_generated as [F B]. rewrite <- minima_is_generated i
 (* ======================================================================================================================================
    The float64 helpers of common / common/spatial as REGENERATED from the Go source (generated/GeneratedFS.v; struct values are tuples;
    math.Hypot/Sin/Cos are fields of the record GeneratedF.libm) — the main binary64 results of VecExact.v, FloatId.v, MatCtor.v, PointLaws.v
-   restated over those generated definitions (through GenEqFSpatial.gen_*_eq). Not regenerated, hence not covered here: UniqueAppend,
+   restated over those generated definitions (through the GenEqFS* files, gen_*_eq). Not regenerated, hence not covered here: UniqueAppend,
    MaxPoint, MinPoint (slices of pointers, range loops): for them the tie to the source remains the bit-for-bit differential run only.
    ====================================================================================================================================== *)
 From SIDGen Require GeneratedF GeneratedFS.
